@@ -6,6 +6,7 @@ package main
 import (
 	"fmt"
 	"go/types"
+	"math/big"
 
 	"golang.org/x/tools/go/ssa"
 )
@@ -182,6 +183,115 @@ func init() {
 			}
 		}
 		return ex.vc.Def("popcnt", sum)
+	}
+	// process exit: no continuation
+	for _, n := range []string{"(github.com/containers/nri-plugins/pkg/log.Logger).Fatalf", "(github.com/containers/nri-plugins/pkg/log.Logger).Fatal", "os.Exit", "github.com/containers/nri-plugins/pkg/log.Fatalf", "github.com/containers/nri-plugins/pkg/log.Fatal"} {
+		models[n] = func(ex *Exec, fr *frame, st *State, reach *Term, args []Value, instr ssa.Instruction) Value {
+			ex.vc.Assume(reach, TFalse)
+			return nil
+		}
+	}
+	ifaceModels["github.com/containers/nri-plugins/pkg/log.Logger.Fatalf"] = func(ex *Exec, fr *frame, st *State, reach *Term, args []Value, instr ssa.Instruction) Value {
+		ex.vc.Assume(reach, TFalse)
+		return nil
+	}
+	ifaceModels["github.com/containers/nri-plugins/pkg/log.Logger.Fatal"] = ifaceModels["github.com/containers/nri-plugins/pkg/log.Logger.Fatalf"]
+	// ---- file system (ghost trace): T3 ----------------------------------------------------------
+	fsNote := func(ex *Exec) {
+		ex.vc.note("trusted model of os.Lstat/WriteFile/Rename/MkdirAll: results are arbitrary; WriteFile(p) marks p as written (ghost), Rename(a,b) records the rename (ghost); rename atomicity is the kernel's")
+	}
+	models["os.Lstat"] = func(ex *Exec, fr *frame, st *State, reach *Term, args []Value, instr ssa.Instruction) Value {
+		fsNote(ex)
+		vc := ex.vc
+		path := args[0].(*Term)
+		info := vc.FreshConst("lstat.info", SInt)
+		err := vc.FreshConst("lstat.err", SInt)
+		errT := types.Universe.Lookup("error").Type()
+		ex.assumeResultTyping(st, reach, info, errT)
+		ex.assumeResultTyping(st, reach, err, errT)
+		exists := Select(ex.comp(st, "GH.fs.exists", ArraySort(SStr, SBool)), path)
+		staterr := Select(ex.comp(st, "GH.fs.staterr", ArraySort(SStr, SBool)), path)
+		mode := Select(ex.comp(st, "GH.fs.mode", ArraySort(SStr, vc.IntSort())), path)
+		vc.Assume(reach, Eq(Not(Eq(err, IntLit(0))), Or(staterr, Not(exists))))
+		vc.Assume(reach, Eq(Eq(err, IntLit(0)), Not(Eq(info, IntLit(0)))))
+		vc.declare("errors.Is", "(declare-fun errors.Is (Int Int) Bool)")
+		vc.Assume(reach, Eq(App("errors.Is", SBool, err, ex.comp(st, "G.os.ErrNotExist", SInt)), And(Not(staterr), Not(exists))))
+		vc.declare("fileinfo.mode", fmt.Sprintf("(declare-fun fileinfo.mode (Int) %s)", vc.IntSort()))
+		vc.Assume(reach, Implies(Not(Eq(info, IntLit(0))), Eq(App("fileinfo.mode", vc.IntSort(), info), mode)))
+		return Tuple{info, err}
+	}
+	models["os.Stat"] = models["os.Lstat"]
+	models["errors.Is"] = func(ex *Exec, fr *frame, st *State, reach *Term, args []Value, instr ssa.Instruction) Value {
+		ex.vc.declare("errors.Is", "(declare-fun errors.Is (Int Int) Bool)")
+		return App("errors.Is", SBool, args[0].(*Term), args[1].(*Term))
+	}
+	ifaceModels["io/fs.FileInfo.Mode"] = func(ex *Exec, fr *frame, st *State, reach *Term, args []Value, instr ssa.Instruction) Value {
+		fsNote(ex)
+		name := "fileinfo.mode"
+		ex.vc.declare(name, fmt.Sprintf("(declare-fun %s (Int) %s)", name, ex.vc.IntSort()))
+		m := App(name, ex.vc.IntSort(), args[0].(*Term))
+		if ex.vc.mode == ModeBV {
+			ex.vc.Assume(reach, App("bvult", SBool, m, BVLit(new(big.Int).Lsh(big.NewInt(1), 32))))
+		}
+		return m
+	}
+	ifaceModels["io/fs.FileInfo.IsDir"] = func(ex *Exec, fr *frame, st *State, reach *Term, args []Value, instr ssa.Instruction) Value {
+		fsNote(ex)
+		if ex.vc.mode != ModeBV {
+			panic(unsupported("FileInfo.IsDir needs ints=bv64"))
+		}
+		name := "fileinfo.mode"
+		ex.vc.declare(name, fmt.Sprintf("(declare-fun %s (Int) %s)", name, ex.vc.IntSort()))
+		m := App(name, ex.vc.IntSort(), args[0].(*Term))
+		// fs.ModeDir = 1<<31
+		return Not(Eq(App("bvand", SBV64, m, BVLit(new(big.Int).Lsh(big.NewInt(1), 31))), BVLit(big.NewInt(0))))
+	}
+	writeSort := ArraySort(SStr, SBool)
+	models["os.WriteFile"] = func(ex *Exec, fr *frame, st *State, reach *Term, args []Value, instr ssa.Instruction) Value {
+		fsNote(ex)
+		w := ex.comp(st, "GH.fs.written", writeSort)
+		ex.setComp(st, "GH.fs.written", Store(w, args[0].(*Term), TTrue))
+		err := ex.vc.FreshConst("write.err", SInt)
+		ex.assumeResultTyping(st, reach, err, types.Universe.Lookup("error").Type())
+		return err
+	}
+	modelMods["os.WriteFile"] = func(ex *Exec, ms *modSet) { ms.add("GH.fs.written", writeSort) }
+	models["os.Rename"] = func(ex *Exec, fr *frame, st *State, reach *Term, args []Value, instr ssa.Instruction) Value {
+		fsNote(ex)
+		err := ex.vc.FreshConst("rename.err", SInt)
+		ex.assumeResultTyping(st, reach, err, types.Universe.Lookup("error").Type())
+		okc := Eq(err, IntLit(0))
+		n := ex.comp(st, "GH.fs.renames", ex.vc.IntSort())
+		ex.setComp(st, "GH.fs.renames", Ite(okc, ex.vc.Arith("+", n, ex.vc.IntConst(1), intT()), n))
+		f := ex.comp(st, "GH.fs.renameFrom", SStr)
+		ex.setComp(st, "GH.fs.renameFrom", Ite(okc, args[0].(*Term), f))
+		t := ex.comp(st, "GH.fs.renameTo", SStr)
+		ex.setComp(st, "GH.fs.renameTo", Ite(okc, args[1].(*Term), t))
+		return err
+	}
+	modelMods["os.Rename"] = func(ex *Exec, ms *modSet) {
+		ms.add("GH.fs.renames", ex.vc.IntSort())
+		ms.add("GH.fs.renameFrom", SStr)
+		ms.add("GH.fs.renameTo", SStr)
+	}
+	models["os.MkdirAll"] = func(ex *Exec, fr *frame, st *State, reach *Term, args []Value, instr ssa.Instruction) Value {
+		fsNote(ex)
+		err := ex.vc.FreshConst("mkdir.err", SInt)
+		ex.assumeResultTyping(st, reach, err, types.Universe.Lookup("error").Type())
+		n := ex.comp(st, "GH.fs.mkdirs", ex.vc.IntSort())
+		ex.setComp(st, "GH.fs.mkdirs", ex.vc.Arith("+", n, ex.vc.IntConst(1), intT()))
+		return err
+	}
+	modelMods["os.MkdirAll"] = func(ex *Exec, ms *modSet) { ms.add("GH.fs.mkdirs", ex.vc.IntSort()) }
+	// log.Panic*: a panic
+	for _, n := range []string{"Panic", "Panicf"} {
+		ifaceModels["github.com/containers/nri-plugins/pkg/log.Logger."+n] = func(ex *Exec, fr *frame, st *State, reach *Term, args []Value, instr ssa.Instruction) Value {
+			if ex.safety && !ex.mayPanic {
+				ex.safeOblige(fr, reach, TFalse, "log-panic", instr)
+			}
+			ex.vc.Assume(reach, TFalse)
+			return nil
+		}
 	}
 	models["strings.HasPrefix"] = func(ex *Exec, fr *frame, st *State, reach *Term, args []Value, instr ssa.Instruction) Value {
 		ex.vc.declare("str.prefixof", "(declare-fun str.prefixof (Str Str) Bool)")
